@@ -164,8 +164,13 @@ func (c *boundedPool) put(conn net.Conn) error {
 	case c.conns <- &idleConn{c: conn, t: time.Now()}:
 		return nil
 	default:
-		// pool is full, close passed connection
-		c.tryFree()
+		// pool is full, close passed connection. The read lock is already held here:
+		// tryFree would take it again and block for ever behind a Close that is waiting
+		// for the write lock.
+		select {
+		case <-c.total:
+		default:
+		}
 		return conn.Close()
 	}
 }
